@@ -56,7 +56,8 @@ def operand_checks(c, k):
 
 
 def region_check(c, k, op, tol):
-    c.check("formula %s R%d A%d B%d %s =" % (num.enc(tol), k, k, k, OPNAME[op]))
+    # the check whose soundness for all points is the theorem Gbo.Props.C01_check_sound
+    c.check("region %d %s" % (k, num.enc(tol)))
 
 
 # ---------------------------------------------------------------------------------------------
